@@ -59,9 +59,21 @@ def canon_model(v):
 
 # ---- generators --------------------------------------------------------------------------------
 def gen_knots(rng, n):
-    kind = rng.choice(["arange", "uniform", "loguniform", "mixed"])
+    kind = rng.choice(["arange", "uniform", "loguniform", "mixed", "jitter", "tiny"])
     if kind == "arange":  # the grid the Pulser adapter uses
         return kind, [float(i) for i in range(n)]
+    if kind == "jitter":  # uniform up to a relative jitter of 1e-9 .. 1e-3 (must NOT be treated as uniform)
+        h0, rel = rng.choice([1.0, 0.5, 1e-3, 40.0]), 10 ** rng.uniform(-9, -3)
+        x = [rng.choice([0.0, -5.0, 3.0])]
+        for _ in range(n - 1):
+            x.append(x[-1] + h0 * (1 + rel * rng.uniform(-1, 1)))
+        return kind, x
+    if kind == "tiny":  # non-uniform spacings of 1e-12 .. 1e-6 (times in seconds): absolute tolerances must not matter
+        x = [0.0]
+        lo = rng.uniform(-12, -7)
+        for _ in range(n - 1):
+            x.append(x[-1] + 10 ** rng.uniform(lo, lo + 1))
+        return kind, x
     x = [rng.choice([0.0, -5.0, 1e3, rng.uniform(-10, 10)])]
     for _ in range(n - 1):
         if kind == "uniform":
@@ -111,7 +123,7 @@ def gen_values(rng, n):
 
 def gen_queries(rng, x, k):
     lo, hi = x[0], x[-1]
-    span = max(hi - lo, 1.0)
+    span = hi - lo
     q = []
     for _ in range(k):
         m = rng.random()
@@ -347,6 +359,108 @@ def scale_search(ctx, cases):
     ctx.extra["scale_equivariance_search"] = {"cases": len(todo), "exponents": SCALE_K, "results": stats}
 
 
+# ---- covariance under exact rescaling / shifting of the abscissae -----------------------------------------------
+# Scaling x and the query points by s = 2^k multiplies h by s and coefficient p_j by s^-j, all exactly; the values
+# do not change.  Shifting by c changes nothing when x+c, q+c and all differences are exact.  Any absolute length
+# scale hidden in the code (absolute tolerances, "uniform grid" shortcuts) breaks this.
+XSCALE_K = [10, 20, 40, 60, -10, -20, -40, -60]
+SHIFTS = [1024.0, -4096.0, 2.0 ** 20]
+NOT_XCOV = "pchip-not-x-scale-covariant"
+NOT_SHIFT = "pchip-not-shift-covariant"
+
+
+def xscale_check(ctx, case, k, report=True):
+    import torch
+
+    x, y, q = [float(a) for a in case["x"]], [float(a) for a in case["y"]], [float(a) for a in case["q"]]
+    n = len(x)
+    if n < 2 or any(x[i + 1] <= x[i] for i in range(n - 1)) or not all(math.isfinite(a) for a in x + y + q):
+        return "skipped"
+    s = 2.0 ** k
+    try:
+        co0, v0 = _run_dtype(x, y, q, torch.float64)
+    except ValueError:
+        return "skipped"
+    if not all(math.isfinite(a) for a in co0 + v0):
+        return "skipped"
+    exp = [c * s ** (-(j % 4)) for j, c in enumerate(co0)]
+    mags = [abs(a) for a in exp + [a * s for a in x + q] if a != 0]
+    if mags and (max(mags) > 2.0 ** 900 or min(mags) < 2.0 ** -900):
+        return "skipped"
+    co1, v1 = _run_dtype([a * s for a in x], y, [a * s for a in q], torch.float64)
+    eps = 2 * 2.220446049250313e-16
+    what = None
+    for j, (e, w) in enumerate(zip(exp, co1)):
+        if not (abs(w - e) <= eps * abs(e)):
+            what = (f"coefficient p{j % 4} of piece {j // 4} of PCHIP1D(2^{k}*x, y) is {w!r}, but 2^({-k}*{j % 4}) * (that of "
+                    f"PCHIP1D(x, y)) = {e!r} (relative difference {abs(w - e) / max(abs(e), 1e-300):.3g})")
+            break
+    if what is None:
+        for j, (e, w) in enumerate(zip(v0, v1)):
+            if not (abs(w - e) <= eps * abs(e)):
+                what = (f"PCHIP1D(2^{k}*x, y)(2^{k}*{q[j]!r}) = {w!r} but PCHIP1D(x, y)({q[j]!r}) = {e!r} "
+                        f"(relative difference {abs(w - e) / max(abs(e), 1e-300):.3g})")
+                break
+    if what is None:
+        return "ok"
+    if report:
+        ctx.violation(f"[abscissae scaled by 2^{k}] " + what + ": not covariant under a change of the time unit",
+                      {"case": {"kind": case["kind"], "x": x, "y": y, "q": q}, "xscale_k": k, "finding_key": NOT_XCOV})
+    return NOT_XCOV
+
+
+def shift_check(ctx, case, c, report=True):
+    import torch
+
+    x, y, q = [float(a) for a in case["x"]], [float(a) for a in case["y"]], [float(a) for a in case["q"]]
+    n = len(x)
+    if n < 2 or any(x[i + 1] <= x[i] for i in range(n - 1)) or not all(math.isfinite(a) for a in x + y + q):
+        return "skipped"
+    xs, qs = [a + c for a in x], [a + c for a in q]
+    exact = (all(b - c == a for a, b in zip(x + q, xs + qs))
+             and all(xs[i + 1] - xs[i] == x[i + 1] - x[i] for i in range(n - 1))
+             and all(qq - xi == (qq + c) - (xi + c) for qq in q for xi in x))
+    if not exact:
+        return "skipped"
+    try:
+        co0, v0 = _run_dtype(x, y, q, torch.float64)
+        co1, v1 = _run_dtype(xs, y, qs, torch.float64)
+    except ValueError:
+        return "skipped"
+    from vlib.coqparse import bits
+    if [bits(a) for a in co0 + v0] == [bits(a) for a in co1 + v1]:
+        return "ok"
+    j = next(i for i, (a, b) in enumerate(zip(co0 + v0, co1 + v1)) if bits(a) != bits(b))
+    if report:
+        ctx.violation(f"[abscissae shifted by {c!r}, exactly representable] entry {j} of (coefficients, values) changes from "
+                      f"{(co0 + v0)[j]!r} to {(co1 + v1)[j]!r}: not covariant under a shift of the time origin",
+                      {"case": {"kind": case["kind"], "x": x, "y": y, "q": q}, "shift_c": c, "finding_key": NOT_SHIFT})
+    return NOT_SHIFT
+
+
+def xcov_search(ctx, cases):
+    stats = {}
+    todo = [c for c in cases if c["kind"] == "valid" or c["kind"].startswith("corpus")]
+    todo = [c for c in todo if len(c["x"]) <= 60][: ctx.n(150, 1500)]
+    # dyadic grids (multiples of 1/8, queries multiples of 1/16) so that shifts are exact
+    for _ in range(ctx.n(40, 400)):
+        n = ctx.rng.randint(3, 12)
+        x = [ctx.rng.randint(-40, 40) / 8.0]
+        for _ in range(n - 1):
+            x.append(x[-1] + ctx.rng.randint(1, 24) / 8.0)
+        _, y = gen_values(ctx.rng, n)
+        q = [ctx.rng.randint(int(16 * x[0]) - 20, int(16 * x[-1]) + 20) / 16.0 for _ in range(8)] + [x[0], x[-1]]
+        todo.append({"kind": "valid", "x": x, "y": y, "q": q})
+    for c in todo:
+        for k in XSCALE_K:
+            r = xscale_check(ctx, c, k)
+            stats["scale:" + r] = stats.get("scale:" + r, 0) + 1
+        for sh in SHIFTS:
+            r = shift_check(ctx, c, sh)
+            stats["shift:" + r] = stats.get("shift:" + r, 0) + 1
+    ctx.extra["abscissa_covariance_search"] = {"cases": len(todo), "exponents": XSCALE_K, "shifts": SHIFTS, "results": stats}
+
+
 # ---- run -----------------------------------------------------------------------------------------
 def run(ctx):
     from vlib.coqparse import parse
@@ -378,6 +492,7 @@ def run(ctx):
     for c, r in zip(cases, impl):
         property_check(ctx, c, r)
     scale_search(ctx, cases)   # independent of the Coq tie: always yields concrete replays
+    xcov_search(ctx, cases)
 
     corr_ok, detail = True, ""
     hist = {}
@@ -409,7 +524,8 @@ def run(ctx):
     ctx.extra["knot_count_histogram"] = _hist([len(c["x"]) for c in cases])
     ctx.obligation("correspondence:Model.Pchip(float_arith)==PCHIP1D coefficients+values (bit-exact)",
                    corr_ok, detail, kind="correspondence")
-    ctx.rule = ("knots: arange (adapter grid) / uniform / log-uniform / mixed steps, 2..40 knots (quick; to 120 and "
+    ctx.rule = ("knots: arange (adapter grid) / uniform / log-uniform / mixed steps / uniform with relative jitter "
+                "1e-9..1e-3 / non-uniform spacings 1e-12..1e-6, 2..40 knots (quick; to 120 and "
                 "a few 100..500 thorough); values: gauss, flat runs, monotone with zeros, integers, alternating "
                 "signs, ratios to 1e16, flat end intervals, ramps; queries inside, at knots, outside both ends; "
                 "malformed: unsorted/duplicate/NaN knots, length mismatch, one point, inf/nan values, nan/inf "
@@ -438,6 +554,12 @@ def _hist(v):
 def replay(ctx, path):
     rp = json.loads(open(path).read())
     c = rp["case"]
+    if "xscale_k" in rp:
+        print("replay x-scale check:", xscale_check(ctx, c, rp["xscale_k"]))
+        return
+    if "shift_c" in rp:
+        print("replay shift check:", shift_check(ctx, c, rp["shift_c"]))
+        return
     if "scale_k" in rp:
         print("replay scale check:", scale_check(ctx, c, rp["scale_k"], rp["dtype"]))
         return
